@@ -476,6 +476,73 @@ def run_mixrep(c):
     return ck.result()
 
 
+
+# ------------------------------------------------------------------------------------------- polygon collections from vertex arguments
+@st.composite
+def pcv_case(draw, tier="quick"):
+    d = draw(st.sampled_from([2, 3]))
+    nv = 3 if d == 3 else draw(st.sampled_from([3, 4]))
+    k = draw(st.sampled_from([2, 3, 4]))
+    return {"d": d, "k": k, "verts": [[[draw(C.ints(6)) for _ in range(d)] for _ in range(k)] for _ in range(nv)], "single": [draw(st.booleans()) for _ in range(nv)], "cls": draw(st.sampled_from(["PolygonCollection", "SegmentCollection"]))}
+
+
+def run_pcv(c):
+    """PolygonCollection(v1, v2, v3, ...) / SegmentCollection(a, b) from vertex arguments of which some are single points (shared by
+    all elements) and some are point collections, in every position: element i is the polygon / segment of the i-th vertices"""
+    d, k = c["d"], c["k"]
+    verts, single = c["verts"], list(c["single"])
+    if c["cls"] == "SegmentCollection":
+        verts, single = verts[:2], single[:2]
+    nv = len(verts)
+    if all(single):
+        single[-1] = False
+    args, per = [], []
+    for j in range(nv):
+        rows = np.array([list(map(float, v)) + [1.0] for v in verts[j]])
+        if single[j]:
+            args.append(G.Point(rows[0]))
+            per.append([rows[0]] * k)
+        else:
+            args.append(PointCollection(rows))
+            per.append(list(rows))
+    # every element must be a proper segment / simple polygon
+    for i in range(k):
+        P = [per[j][i][:-1] for j in range(nv)]
+        if nv == 2:
+            if np.array_equal(P[0], P[1]):
+                raise Skip("degenerate")
+        elif d == 2:
+            from fractions import Fraction
+
+            from .. import exact as X
+
+            if not X.is_simple_polygon([[Fraction(x) for x in p] for p in P]) or abs(np.linalg.det(np.array([[*P[0], 1], [*P[1], 1], [*P[2], 1]]))) < 0.5:
+                raise Skip("not a simple polygon")
+        elif np.linalg.matrix_rank(np.array([P[1] - P[0], P[2] - P[0]])) < 2:
+            raise Skip("degenerate triangle")
+    cls = PolygonCollection if nv > 2 else G.SegmentCollection
+    one = G.Polygon if nv > 2 else G.Segment
+    site = f"{cls.__name__}(vertices):" + "".join("s" if x else "c" for x in single) + f":d{d}"
+    coll, f = call(site, lambda: cls(*args))
+    if f:
+        return [f]
+    ck = Checker()
+    if not ck.check(coll.array.shape == (k, nv, d + 1), site + ":shape", coll.array.shape):
+        return ck.result()
+    for i in range(k):
+        ref = one(*[G.Point(per[j][i]) for j in range(nv)])
+        e, f = call(site + ":getitem", lambda: coll[i])
+        if f:
+            ck.add(f)
+            break
+        ck.check(np.allclose(np.asarray(e.array, float), np.asarray(ref.array, float)), site + ":element-vertices", (i, np.asarray(e.array).tolist(), np.asarray(ref.array).tolist()))
+        if nv > 2:
+            a1, f = call(site + ":area", lambda: coll.area)
+            if f is None:
+                ck.check(abs(np.asarray(a1)[i] - ref.area) < 1e-9, site + ":area", (i, float(np.asarray(a1)[i]), float(ref.area)))
+    return ck.result()
+
+
 LAWS = [
     Law("collection_vs_single", lambda tier: case(tier), run, nontrivial, labels, {"quick": 3500, "thorough": 80000},
         "collection result at every position == single-object result there, with broadcasting", shard=250, mandatory=("one-axis", "several-axes", "one-axis+broadcast")),
@@ -489,6 +556,8 @@ LAWS = [
     Law("point_collection_mixed_representatives", lambda tier: mixrep_case(tier), run_mixrep, lambda c: len({min(abs(w), 2) for w in c["w"]}) > 1,
         lambda c: ["mixed" if len({min(abs(w), 2) for w in c["w"]}) > 1 else "uniform"] + (["with-infinite-point"] if 0 in c["w"] else []), {"quick": 500, "thorough": 8000},
         "PointCollection mixing unit, scaled and infinite representatives: arithmetic / normalisation / dist per position == single point", shard=250, mandatory=("mixed", "with-infinite-point")),
+    Law("collections_from_vertex_arguments", lambda tier: pcv_case(tier), run_pcv, lambda c: any(c["single"]), lambda c: [c["cls"], f"d{c['d']}"] + (["single-point-first"] if c["single"][0] and not all(c["single"][: (2 if c["cls"] == "SegmentCollection" else None)]) else []),
+        {"quick": 600, "thorough": 8000}, "PolygonCollection / SegmentCollection built from vertex arguments mixing single points and point collections in every position", shard=200, mandatory=("single-point-first",)),
     Law("indexing", lambda tier: idx_case(tier), run_idx, lambda c: True, lambda c: [f"{c['kind']}{c['d']}", c["how"], "2-axes" if len(c["shape"]) > 1 else "1-axis"],
         {"quick": 1500, "thorough": 25000}, "coll[i], coll[i,j], iteration yield instances of the element class with attributes intact", shard=300),
 ]
